@@ -47,6 +47,9 @@ fn corpus(tier: Tier) -> Vec<(String, PProblem)> {
     let step = tier.pick(4, 1);
     out.extend(req.into_iter().step_by(step).map(|p| ("reqbreak".to_string(), p)));
     out.extend(family_combo(2).into_iter().step_by(tier.pick(8, 1)).map(|p| ("combo".to_string(), p)));
+    // vicinity clustering: acceptance, and the commute records as mutation sites (the oracle replays the walk, not the schedule)
+    out.extend(family_cluster_walk().into_iter().map(|p| ("cluster".to_string(), p)));
+    out.extend(family_cluster().into_iter().step_by(tier.pick(12, 1)).map(|p| ("cluster".to_string(), p)));
     if tier != Tier::Quick {
         out.extend(family_combo(3).into_iter().map(|p| ("combo".to_string(), p)));
         // NOTE: time dependent matrices are left out: the checker declares them unsupported itself
@@ -353,12 +356,40 @@ fn twin_split(problem: &PProblem, cfg: &SolveCfg) -> Option<Mutant> {
     })
 }
 
+/// Clustered stops: every reported commute leg with its distance raised by 2 (a distance mismatch inside the stop).
+fn commute_mutants(problem: &PProblem, solution: &Value) -> Vec<Mutant> {
+    let mut out = vec![];
+    for (ti, tour) in solution["tours"].as_array().into_iter().flatten().enumerate() {
+        for (si, stop) in tour["stops"].as_array().into_iter().flatten().enumerate() {
+            for (ai, act) in stop["activities"].as_array().into_iter().flatten().enumerate() {
+                for dir in ["forward", "backward"] {
+                    if let Some(d) = act["commute"].get(dir).and_then(|c| c["distance"].as_f64()) {
+                        let mut s = solution.clone();
+                        s["tours"][ti]["stops"][si]["activities"][ai]["commute"][dir]["distance"] = json!(d + 2.);
+                        out.push(Mutant {
+                            class: "distance-mismatch",
+                            site: format!("tour {ti} stop {si} activity {ai} {dir} commute distance"),
+                            confirms: if dir == "forward" { &["C03:commute-forward"] } else { &["C03:commute-backward"] },
+                            problem: problem.clone(),
+                            solution: s,
+                        });
+                    }
+                }
+            }
+        }
+    }
+    out
+}
+
 fn judge_pair(family: &str, problem: &PProblem, cfg: &SolveCfg, report: &mut Report) {
     let Ok(solved) = solve(problem, cfg, None, None) else { return };
     let tol = oracle::tolerance(family, problem);
     let mut base_findings = oracle::check(problem, &solved.json, &OracleOptions { tol });
     if family == "reqbreak" {
         base_findings.retain(|f| f.rule.starts_with("C02:") || f.rule.starts_with("C01:required-break") || f.rule == "C01:capacity");
+    }
+    if family == "cluster" {
+        base_findings.retain(|f| f.rule.starts_with("C02:") || f.rule.starts_with("C03:commute-") || f.rule == "C03:statistic-total" || f.rule == "C03:statistic-commuting" || f.rule == "C03:statistic-parking");
     }
     if !base_findings.is_empty() {
         // not a valid solution by the oracle (a C01-C03 matter): not part of the corpus
@@ -407,8 +438,10 @@ fn judge_pair(family: &str, problem: &PProblem, cfg: &SolveCfg, report: &mut Rep
     if family == "reqbreak" {
         return;
     }
-    let mut all_mutants = mutants(problem, &solved.json);
-    all_mutants.extend(twin_split(problem, cfg));
+    let mut all_mutants = if family == "cluster" { commute_mutants(problem, &solved.json) } else { mutants(problem, &solved.json) };
+    if family != "cluster" {
+        all_mutants.extend(twin_split(problem, cfg));
+    }
     for m in all_mutants {
         report.add_count("mutants_generated", 1);
         let findings = oracle::check(&m.problem, &m.solution, &OracleOptions { tol });
